@@ -5,11 +5,12 @@ HERE=$(cd "$(dirname "$0")/.." && pwd)
 mkdir -p "$HERE/build" "$HERE/evidence"
 cd "$HERE/lean"
 TARGETS=""
-for d in pfxdriver spkidriver mgrdriver bgpdriver ipdriver rtrdriver lockdriver allocdriver constdriver pduconvdriver; do
+for d in pfxdriver spkidriver mgrdriver bgpdriver ipdriver rtrdriver lockdriver allocdriver constdriver pduconvdriver cfundriver; do
   root=$(awk -v n="$d" '$0 ~ "name = \""n"\"" {getline; gsub(/root = |"/,""); print}' lakefile.toml | tr . /)
   [ -f "$root.lean" ] && TARGETS="$TARGETS $d"
 done
 # the generated model parts are tied to the current source: regenerate them (each check does so again)
+(cd "$HERE" && python3 tools/gen_specs.py >/dev/null 2>&1) || echo "setup: tools/gen_specs.py failed"
 (cd "$HERE" && python3 tools/gen_constants.py >/dev/null 2>&1 && python3 tools/gen_locks.py >/dev/null 2>&1 && python3 tools/gen_cfuns.py >/dev/null 2>&1) || \
   echo "setup: a translator failed on the current source (the checks that depend on it will report it)"
 # a proof that no longer builds is a finding of the check that owns it, not a setup failure
